@@ -102,6 +102,13 @@ CHECKS["C16"] = {
   "text": "Relational obligations over the real source: EvoWorklist.transfer and FluentWorklist.transfer are statement-by-statement the same program except for the body of the deprecated wash_scheme=None branch (excluded by the property) and assert-vs-raise for incompatible lengths (complementary conditions); both resolve their helpers to the same definitions; neither class overrides a shared method; FluentWorklist.__init__ forwards unchanged; the device-specific numbering is used only for the position argument of A/D records and the destination range of R records, where the two get_well_position contracts (C08) differ exactly on troughs; BaseWorklist._get_well_position / transfer are proved to always raise TypeError / CompatibilityError with nothing appended. " + _C16,
   "note": "Mixed: the relational part is syntactic (equal programs over equal callees are equivalent: a sufficient condition - a semantics-preserving edit of only one copy would be reported and then has to be re-aligned); the end-to-end agreement on operation programs is explored by the bounded differential monitor. Known finding: Fluent distribute source range (C01).",
 }
+_C07 = _BOUNDED_ONLY.pop("C07")
+CHECKS["C07"] = {
+  "category": "other",
+  "technique": "contract-based deductive verification of both real transfer bodies on small symbolic shapes (exact record sequence, tracking, history, abort prefix; modular use of the aspirate/dispense/add/remove/emitter contracts; real partition_by_column / optimize_partition_by / partition_volume code inlined) + bounded monitor for larger shapes and splitting",
+  "text": "Proved for EvoWorklist.transfer and FluentWorklist.transfer with 1 triple (quick) and 2 triples (thorough) of symbolic wells / volumes / label, plates and troughs, same-labware transfers, wash schemes 1-4 / flush / reuse, DiTi mode, partition modes, pass-through liquid_class and tip, no splitting needed: the appended records are exactly comment + for each triple with a positive volume, in partition order, [A record, D record with the same volume / liquid class / tip mask, tip action]; source and destination volumes change by exactly the requested amounts; each participating labware gains exactly one history entry labelled with the label, earlier entries untouched; on every raise exit the records are a prefix of that sequence. " + _C07,
+  "note": "Mixed: symbolic shapes are small (1-2 triples) and volumes below max_volume (no LVH split) in the deductive part; permutations of longer lists, splitting, break records and rejection of malformed arguments are explored by the bounded monitor. Known finding C11 (labels 'first'/'last') excluded by precondition.",
+}
 for _pid, _txt in _BOUNDED_ONLY.items():
     CHECKS[_pid] = {
         "category": "exploration",
